@@ -34,6 +34,10 @@ def pyStrHandle : List Sexp → Option Sexp
       match Py.item s.toList i with
       | some cs => pure (ofChars cs)
       | none => pure (.atom "IndexError")
+  | [.atom "pystr", .atom "startswith", .str s, .str pfx, lo] => do
+      let lo ← optInt? lo
+      pure (ofBool (Py.startswith s.toList pfx.toList lo))
+  | [.atom "pystr", .atom "in", .str x, .str cs] => pure (ofBool (Py.inChars x.toList cs.toList))
   | [.atom "pystr", .atom "len", .str s] => pure (ofInt (Py.len s.toList))
   | _ => none
 
